@@ -423,7 +423,12 @@ def check(ctx):
     try:
         rr = A.free_fn(prog, "register_reactors")
         ctx.touch(rr)
-        pc = [(b, t) for b, t, fr in rr.iter_calls() if fr and lib.tail(mir.fn_name(fr), 2) == "ReactorMode::prepare"]
+        try:
+            prep_path = mir.strip_generics(A.method(prog, "ReactorMode", "prepare").path)      # (by role: the method may be renamed)
+        except mir.AnchorLost:
+            prep_path = None
+        pc = [(b, t) for b, t, fr in rr.iter_calls() if fr and (lib.tail(mir.fn_name(fr), 2) == "ReactorMode::prepare"
+                                                                 or (prep_path is not None and mir.strip_generics(fr.get("resolved") or fr["path"]) == prep_path))]
         rt = [(b, t) for b, t, fr in rr.iter_calls() if fr and lib.tail(mir.fn_name(fr), 1) == "register_triggers"]
         ok = len(pc) == 1 and len(rt) == 1
         if ok:
